@@ -333,13 +333,14 @@ def gen_csv(rng):
     nrows = rng.randrange(1, 13)
     digits = rng.randrange(0, 10)
     t_ns = rng.randrange(0, 3) * 10 ** rng.choice([0, 3, 9])
+    small_steps = rng.random() < 0.4      # stamps like 1, 2, 10, 11 that look like samples
     rows = []
     ts = []
     cols = {norm_name(n.replace(' ', '_')): [] for n in names}
     for _ in range(nrows):
         # time with `digits` fractional digits: value is a multiple of 10^(9-digits) ns
         unit = 10 ** (9 - digits)
-        t_ns += unit * rng.randrange(1, 50)
+        t_ns += unit * (rng.randrange(1, 3) if small_steps else rng.randrange(1, 50))
         t_ns -= t_ns % unit
         ip, fp = divmod(t_ns, 10 ** 9)
         if digits == 0:
@@ -350,6 +351,8 @@ def gen_csv(rng):
         cells = []
         for n in names:
             c = rng.choice(['0', '1', 'x', '0', '1', format(rng.getrandbits(8), 'b'), '1x0', format(rng.getrandbits(70), 'b'), '0011'])
+            if rng.random() < 0.15:
+                c = cell_t.rstrip('.')       # a sample whose text equals this row's time stamp (columns are told apart by position)
             cells.append(c)
             cols[norm_name(n.replace(' ', '_'))].append(to_value(c))
         rows.append(cells[:tpos] + [cell_t] + cells[tpos:])
